@@ -460,6 +460,8 @@ func memberType(kind string) reflect.Type {
 	switch kind {
 	case "int":
 		return reflect.TypeOf(int64(0))
+	case "goint":
+		return reflect.TypeOf(int(0)) // Go's platform int (64 bits here), encoded like any INTEGER
 	case "int32":
 		return reflect.TypeOf(int32(0))
 	case "bool":
@@ -902,7 +904,7 @@ func RunBer(in, out string) error {
 	prims := map[string]reflect.Type{
 		"int": reflect.TypeOf(int64(0)), "int32": reflect.TypeOf(int32(0)), "enum": asn.EnumeratedType, "bool": reflect.TypeOf(false),
 		"octets": asn.OctetStringType, "utf8": asn.UTF8StringType, "bits": asn.BitStringType, "null": asn.NullType,
-		"oid": asn.ObjectIdentifierType, "uint8": reflect.TypeOf(uint8(0)),
+		"oid": asn.ObjectIdentifierType, "uint8": reflect.TypeOf(uint8(0)), "goint": reflect.TypeOf(int(0)),
 	}
 	fuzzTargets := []string{"int", "bool", "bits", "enum", "octets"}
 	schemaFuzz := []string{"CHFRecord", "MultipleUnitUsage", "UsedUnitContainer", "SubscriptionID", "IPAddress"}
@@ -913,7 +915,7 @@ func RunBer(in, out string) error {
 			t := prims[c.Type]
 			ptr := reflect.New(t)
 			switch c.Type {
-			case "int", "int32", "enum":
+			case "int", "int32", "enum", "goint":
 				n, _ := new(big.Int).SetString(c.Val, 10)
 				ptr.Elem().SetInt(n.Int64())
 			case "uint8":
